@@ -24,7 +24,7 @@ from vf.core import *  # noqa
 
 GARBLE_OWN = ["-literals", "-tiny", "-debug", "-debugdir", "-seed"]
 UNKNOWN = ["-nonexistentflag", "-literalz"]
-WORDS = ["./pkg", "main.go", "v", "-w", "example.com/mod/..."]
+WORDS = ["./pkg", "main.go", "v", "-w", "example.com/mod/...", "out-tiny"]
 # Flags that change which packages/files are compiled or how they are compiled; a
 # reference set fixed here (from `go help build`), independent of garble's own table.
 MUST_FORWARD = ["-C", "-asan", "-asmflags", "-buildmode", "-compiler", "-cover", "-covermode", "-coverpkg", "-gccgoflags",
@@ -222,10 +222,11 @@ def main(tier, seed):
                     report("forward", missing[0][0], row, out,
                            f"build flag(s) {row['must_forward']} of {row['argv']} reach go list as {out['forward']}")
         if row["documented"] and not row["own"] and out["garble_flag"]:
-            key = ("value-rejected",)
+            key = ("value-rejected", bool(re.match(r"^--?(?:literals|tiny|debug|debugdir|seed)(?:$|=)", out["garble_flag"])))
             if key not in reported:
                 reported.add(key)
-                chk.violation({"kind": "cli-failed", "value_looks_like_garble_flag": True, "flag": out["garble_flag"]},
+                chk.violation({"kind": "cli-failed", "value_looks_like_garble_flag": True, "flag": out["garble_flag"],
+                               "exact": bool(re.match(r"^--?(?:literals|tiny|debug|debugdir|seed)(?:$|=)", out["garble_flag"]))},
                               {"row.json": json.dumps(row, indent=1), "real.json": json.dumps(out, indent=1)},
                               what=f"{row['argv']}: a flag value is taken for one of garble's own flags and the command line is rejected")
         if row["own"] and not out["garble_flag"]:
@@ -263,7 +264,8 @@ def main(tier, seed):
             key = ("cli-failed", value_own, culprit_name(argv))
             if key not in reported:
                 reported.add(key)
-                chk.violation({"kind": "cli-failed", "value_looks_like_garble_flag": value_own, "flag": culprit_name(argv)},
+                chk.violation({"kind": "cli-failed", "value_looks_like_garble_flag": value_own, "flag": culprit_name(argv),
+                               "exact": any(re.match(r"^--?(?:literals|tiny|debug|debugdir|seed)(?:$|=)", v) for _, v in parse_pairs(row["go_flags"], go_bool_set))},
                               {"row.json": json.dumps(row, indent=1), "real.json": json.dumps({"rc": r2.returncode, "stderr": r2.stderr[-500:], "calls": calls}, indent=1)},
                               what=f"garble {command} {argv} failed or did not reach the go command (stub go)")
             continue
